@@ -142,7 +142,7 @@ package frame
 //@   requires w != nil && w.ByteWriter != nil && len(w.bw) == 512
 //@   requires fr != nil && specRawOK(fr) && specSigFieldOK(fr)
 //@   ensures  [refused]  specRefusedByVersion(fr) ==> err != nil && logLen() == 0
-//@   ensures  [one-write] !specRefusedByVersion(fr) ==> logLen() == 1 && logCallee(0, "io.Writer.Write") &&
+//@   ensures  [one-write] !specRefusedByVersion(fr) ==> logLen() == 1 && logCallee(0, "io.Writer.Write") && logIsTo(0, w.ByteWriter) &&
 //@              logN(0) == specFrameLen(fr) && err == logErr(0)
 //@   ensures  [layout] !specRefusedByVersion(fr) ==> (forall j int :: 0 <= j && j < specFrameLen(fr) ==> logByte(0, j) == specFrameWire(fr, j))
 //@   canary   logLen() == 0
@@ -159,8 +159,10 @@ package frame
 //@              (forall j int :: 0 <= j && j < specFrameLen(fr) ==> logByte(0, j) == specFrameWire(fr, j))
 //@   ensures  [not-in-dialect] old(specFrameMessage(fr)) != nil && !old(specIsRaw(specFrameMessage(fr))) &&
 //@              (w.DialectRW == nil || !ufDialectHas(w.DialectRW, old(specFrameMessage(fr).GetID()))) ==> err != nil && logLen() == 0
+//@   ensures  [refused-by-version-whatever-the-message] old(specFrameMessage(fr)) != nil && old(specRefusedByVersion(fr)) ==> err != nil && logLen() == 0
+//@   ensures  [message-id-kept] old(specFrameMessage(fr)) != nil && specFrameMessage(fr) != nil ==> specFrameMessage(fr).GetID() == old(specFrameMessage(fr).GetID())
 //@   ensures  [at-most-one] logLen() <= 1
-//@   ensures  [error-is-transport-error] logLen() == 1 ==> err == logErr(0) && logCallee(0, "io.Writer.Write")
+//@   ensures  [error-is-transport-error] logLen() == 1 ==> err == logErr(0) && logCallee(0, "io.Writer.Write") && logIsTo(0, w.ByteWriter)
 //@   ensures  [nothing-written-is-an-error] logLen() == 0 ==> err != nil
 //@   ensures  [whole-frame] logLen() == 1 ==> specRawOK(fr) && logN(0) == specFrameLen(fr) &&
 //@              (forall j int :: 0 <= j && j < specFrameLen(fr) ==> logByte(0, j) == specFrameWire(fr, j))
